@@ -15,7 +15,16 @@ Definition d_status (v : val) : status_in :=
 Definition d_stream (v : val) : stream :=
   {| k_kind := if dZ (nth_val 0 v) =? 0 then KFile else KIter;
      k_chunks := dlist (dopt dstr) (nth_val 1 v);
-     k_raises := dbool (nth_val 2 v); k_has_close := dbool (nth_val 3 v) |}.
+     k_raises := (let z := dZ (nth_val 2 v) in
+                  if z =? 0 then None else if z =? 1 then Some FException
+                  else if z =? 2 then Some FBaseException else Some FCancel);
+     k_has_close := dbool (nth_val 3 v) |}.
+
+(* send fault: [] | [[index; kind]] *)
+Definition d_fault (z : Z) : fault :=
+  if z =? 1 then FException else if z =? 2 then FBaseException else FCancel.
+Definition d_sendfault (v : val) : option (nat * fault) :=
+  dopt (fun p => (dnat (nth_val 0 p), d_fault (dZ (nth_val 1 p)))) v.
 
 Definition d_input (v : val) : input :=
   {| i_head := dbool (nth_val 0 v); i_status := d_status (nth_val 1 v);
@@ -70,7 +79,7 @@ Definition run (v : val) : val :=
     end
   | L [I 1; i; fa] =>
     let i' := d_input i in
-    match asgi_emit i' (dopt dnat fa) with
+    match asgi_emit_f i' (d_sendfault fa) with
     | None => L [I 0]
     | Some o => L [I 1; vlist v_aevent (ao_events o); vbool (ao_raised o); vnat (ao_reads o);
                    vnat (ao_closes o); vlist vnat (oracle_asgi i' o)]
@@ -91,7 +100,7 @@ Definition run (v : val) : val :=
     end
   | L [I 11; ss; fa] =>
     let i' := d_session ss in
-    match asgi_emit i' (dopt dnat fa) with
+    match asgi_emit_f i' (d_sendfault fa) with
     | None => L [I 0]
     | Some o => L [I 1; vlist v_aevent (ao_events o); vbool (ao_raised o); vnat (ao_reads o);
                    vnat (ao_closes o); vlist vnat (oracle_asgi i' o)]
